@@ -4,18 +4,9 @@
 // unchecked access (read_u8, read_u16, next, pop) carry ASSUMED contracts here; each is PROVED on the real
 // method by the Kani obligation named next to it. The remaining helpers are verified verbatim in unit c02_helpers.
 
-#[derive(Copy, Clone)]
-pub struct Frame { pub ip: usize, pub base_pointer: u16 }
+//@TYPE file=vm.rs name=Frame attrs="#[derive(Copy, Clone)]"
 
-pub struct VM {
-    pub stack: Vec<Object>,
-    pub globals: Vec<Object>,
-    pub frames: Vec<Frame>,
-    pub instructions: Vec<u8>,
-    pub ip: usize,
-    pub bp: u16,
-    pub gc: GC,
-}
+//@TYPE file=vm.rs name=VM
 
 
 /// frame conditions: what a step may NOT change
